@@ -6,11 +6,12 @@
 
     spec oracle: the node survives every event (property text: no peer input,
     in any order, crashes the node or stops a background loop).
-    No known-finding codes: the three findings of this property (group
+    No known-finding codes: the four findings of this property (group
     overrun in the pending loop, Header.TxCount sizing the allocations of
-    addLtBlock, nil validator under disableValidation) are repaired in the
-    code and in the model; an implementation that dies anywhere is a
-    violation. *)
+    addLtBlock, nil validator under disableValidation, wrapping int64 range
+    test of the download serving handlers / ProcGetBlockDetailsMsg) are
+    repaired in the code and in the model; an implementation that dies
+    anywhere is a violation. *)
 From Coq Require Import List ZArith NArith Bool String.
 From C33 Require Import Lib.Harness C33.Model C33.Streams.
 Import ListNotations.
@@ -37,14 +38,15 @@ Record obs := mkObs {
       blockchain module being a stub with blocks 0..tip (mode 1: answers with an
       empty list, 2: with an error) - per request what the stub was asked and
       what the requester read (blocks / end of stream / reset);
-    [CaseSrvLive]: the same handlers in front of the REAL blockchain module -
-      index of the request the process did not survive;
+    [CaseSrvLive]: the same handlers in front of the REAL blockchain module, and
+      ranges sent to that module directly through the queue as the rpc module
+      does ([SDirect]) - index of the request the process did not survive;
     [CaseVer]: requests to the two version handlers - what the requester read,
       the reply's AddrFrom, address-book and blacklist effects; [pubs]/[maddrs]:
       the strings utils.IsPublicIP resp. multiaddr.NewMultiaddr accept;
     [CaseLim]: replies to the node's peer-info queries, VerLimit = lim -
       0 = PeerInfoManager.Refresh, 1 = blacklisted, 2 = nothing *)
-Inductive sreq := SOld (r : rd (option (Z * Z))) | SNew (r : rd (Z * Z)).
+Inductive sreq := SOld (r : rd (option (Z * Z))) | SNew (r : rd (Z * Z)) | SDirect (s e : Z).
 Inductive sobs := SBlocks (hs : list Z) | SEof | SReset.
 Inductive vreq := VNew (r : rd vmsg) | VOld (r : rd (option vmsg)).
 Record vobs := mkVobs { vo_class : Z; vo_from : gostring; vo_eff : list peff }.
@@ -162,7 +164,7 @@ Definition check_dl (j : job) (ack : Z) (alive : bool) (del : list delivery) (re
 
 (** ** serving side.  spec oracle: the process survived and every range handed to the
     blockchain module spans at most the handler's own limit (0 <= End-Start <= 256 as
-    integers).  Known finding 4: the range test is done in int64 and wraps. *)
+    integers). *)
 Definition stub_chain (tip mode : Z) (s e : Z) : out chain_ans :=
   if mode =? 1 then Done (CBlocks [])
   else if mode =? 2 then Done CErr
@@ -170,7 +172,16 @@ Definition stub_chain (tip mode : Z) (s e : Z) : out chain_ans :=
   else Done (CBlocks (zseq s (Z.to_nat ((if tip <? e then tip else e) - s + 1)))).
 
 Definition serve (chain : Z -> Z -> out chain_ans) (q : sreq) : sres :=
-  match q with SOld r => serve_old chain r | SNew r => serve_new chain r end.
+  match q with
+  | SOld r => serve_old chain r
+  | SNew r => serve_new chain r
+  | SDirect s e =>   (* EventGetBlocks straight to the blockchain module; a panic there is recovered by the module *)
+      (Some (s, e), match chain s e with
+                    | Died => Died
+                    | Done (CBlocks hs) => Done hs
+                    | _ => Dropped D_CHAIN
+                    end)
+  end.
 
 
 Definition fwd_eqb (a b : option (Z * Z)) : bool :=
@@ -195,10 +206,7 @@ Fixpoint check_srv_steps (chain : Z -> Z -> out chain_ans) (l : list (sreq * (op
       let m := fwd_eqb (fst r) fwd && sobs_agree (snd r) so in
       let s := match fwd with Some (a, b) => span_ok a b | None => true end in
       match check_srv_steps chain tl with
-      | (m', s', k') =>
-          if s then (m && m', s', k')
-          else (m && m', false,
-                match fwd with Some (a, b) => if m && wraps a b then 4%N else 0%N | None => 0%N end)
+      | (m', s', _) => (m && m', s && s', 0%N)
       end
   end.
 
@@ -216,18 +224,12 @@ Fixpoint first_death (chain : Z -> Z -> out chain_ans) (reqs : list sreq) (i : n
   | q :: tl => if serve_survives (serve chain q) then first_death chain tl (S i) else Some (i, q)
   end.
 
-Definition is_wrap_req (q : sreq) : bool :=
-  match q with
-  | SOld (RdMsg (Some (s, e))) | SNew (RdMsg (s, e)) => negb (range_bad s e) && wraps s e
-  | _ => false
-  end.
-
 Definition check_srv_live (tip : Z) (reqs : list sreq) (crash : option nat) : verdict :=
   match first_death (chain_get tip cap_live) reqs 0, crash with
   | None, None => ok_verdict
   | None, Some _ => (false, false, 0%N)
   | Some _, None => (false, true, 0%N)
-  | Some (i, q), Some j => (Nat.eqb i j, false, if Nat.eqb i j && is_wrap_req q then 4%N else 0%N)
+  | Some (i, _), Some j => (Nat.eqb i j, false, 0%N)
   end.
 
 (** ** version handlers.  spec oracle: the process survived *)
